@@ -58,6 +58,7 @@ type streamableHTTPClientTransport struct {
 	// GET SSE connection
 	getSSEConn struct {
 		active bool
+		closed bool // Set by close(): no GET SSE connection is established any more.
 		ctx    context.Context
 		cancel context.CancelFunc
 		mutex  sync.Mutex
@@ -584,9 +585,10 @@ func (t *streamableHTTPClientTransport) sendResponse(ctx context.Context, resp *
 
 // Close closes the transport connection
 func (t *streamableHTTPClientTransport) close() error {
-	// close GET SSE connection
+	// close GET SSE connection (and refuse one that Initialize is still about to establish)
 	t.getSSEConn.mutex.Lock()
-	if t.getSSEConn.active && t.getSSEConn.cancel != nil {
+	t.getSSEConn.closed = true
+	if t.getSSEConn.cancel != nil {
 		t.getSSEConn.cancel()
 		t.getSSEConn.active = false
 	}
@@ -615,6 +617,11 @@ func (t *streamableHTTPClientTransport) establishGetSSE(parentCtx context.Contex
 	// Get lock to ensure only one active connection
 	t.getSSEConn.mutex.Lock()
 	defer t.getSSEConn.mutex.Unlock()
+
+	// Close() may have run before this (asynchronously started) call: nothing is opened after it.
+	if t.getSSEConn.closed {
+		return
+	}
 
 	// If there's already an active connection, cancel the old one
 	if t.getSSEConn.active && t.getSSEConn.cancel != nil {
